@@ -26,7 +26,7 @@
    Out of scope (absent from the syntax; other properties cover them): patches (SMP, JSON-6902), images, replicas,
    replacements, vars, components, `configurations:`/`crds:`, helm, external plugins, `immutable`, file /
    env sources and binary (non UTF-8) values of generators, `buildMetadata`, custom openapi schemas, `kind: List`
-   documents, the local-config annotation (IgnoreLocal), documents that already carry internal.config.kubernetes.io
+   documents, documents that already carry internal.config.kubernetes.io
    build annotations.  Definitions only; proofs are in Res/PipelineProofs.v. *)
 From KV Require Export Res.BuildRefs.
 From KV Require Res.Labels Res.LabelsDefaults Res.Namespace Res.Hygiene Res.Generators Res.LegacySort.
@@ -486,6 +486,45 @@ Section Pipeline.
         end
     end.
 
+  (* KustTarget.IgnoreLocal: DropLocalNodes (GetValidatedMetadata of every non-empty document, then the
+     local-config annotation), Factory.FromResourceSlice of what is kept - which PANICS on an id collision -
+     and ResAccumulator.Intersection: every resource whose id (compared with ==) is not among the kept ones is
+     Removed, and Remove fails unless exactly one resource carries that id *)
+  Definition resid_raw_eqb (a b : resid) : bool :=
+    String.eqb (id_name a) (id_name b) && String.eqb (id_ns a) (id_ns b) &&
+    String.eqb (g_group (id_gvk a)) (g_group (id_gvk b)) && String.eqb (g_version (id_gvk a)) (g_version (id_gvk b)) &&
+    String.eqb (g_kind (id_gvk a)) (g_kind (id_gvk b)) && Bool.eqb (g_cs (id_gvk a)) (g_cs (id_gvk b)).
+
+  Definition validated_meta_ok (n : node) : bool :=
+    negb (String.eqb (get_kind n) "") &&
+    (has_suffix "List" (get_kind n) || negb (String.eqb (get_name n) "")).
+
+  Definition is_local (n : node) : bool :=
+    match Generators.dict_get "config.kubernetes.io/local-config" (node_pairs (meta_field "annotations" n)) with
+    | Some v => negb (String.eqb v "false")
+    | None => false
+    end.
+
+  Fixpoint remove_loop (ids kept : list resid) (cur : list resource) : res (list resource) :=
+    match ids with
+    | [] => Ok cur
+    | id :: t =>
+        if existsb (resid_raw_eqb id) kept then remove_loop t kept cur
+        else
+          let cur' := filter (fun r => negb (resid_raw_eqb (cur_id pipe_cs r) id)) cur in
+          if Nat.eqb (S (List.length cur')) (List.length cur) then remove_loop t kept cur' else Err
+    end.
+
+  Definition ignore_local (m : list resource) : res (list resource) :=
+    let nonempty := filter (fun r => negb (nil_or_empty (r_node r))) m in
+    if negb (forallb (fun r => validated_meta_ok (r_node r)) nonempty) then Err else
+    let kept := filter (fun r => negb (is_local (r_node r))) nonempty in
+    match append_all pipe_cs [] kept with
+    | Ok _ => remove_loop (map (cur_id pipe_cs) m) (map (cur_id pipe_cs) kept) m
+    | Diverge => Diverge
+    | _ => Panic                                   (* FromResourceSlice: panic(err) *)
+    end.
+
   (* krusty.Run (default options, no buildMetadata, default openapi) *)
   Definition build (o : psort) (t : ptree) : res (list node) :=
     match t with
@@ -495,7 +534,8 @@ Section Pipeline.
         do m1 <- mapM hash_res m;                      (* addHashesToNames *)
         do rules <- pipe_rules;
         do m2 <- nameref_transform pipe_cs nonstr rules m1;      (* FixBackReferences *)
-        do m3 <- sort_resources o m2;                  (* applySortOrder *)
+        do m2l <- ignore_local m2;                     (* IgnoreLocal *)
+        do m3 <- sort_resources o m2l;                 (* applySortOrder *)
         Ok (map (fun r => strip_node (r_node r)) m3)   (* RemoveBuildAnnotations *)
     end.
   (* ---------- the name-reference pass under an arbitrary map-iteration order ----------
